@@ -267,8 +267,19 @@ def _optimise_operator(op):
     if isinstance(op, _OpChain):
         op._domain = op._ops[-1].domain
 
-    # Insert trees before leaves
-    for key in key_list_subtrees:
+    # Insert trees before leaves. A definition has to be evaluated before every
+    # definition that uses it, i.e. it has to be inserted after it: among the
+    # pending definitions take the first one no other pending definition depends on.
+    pending = list(key_list_subtrees)
+    while len(pending) > 0:
+        for key in pending:
+            name = same_subtrees[key][1].domain.keys()[0]
+            if not any(name in same_subtrees[other][0].domain.keys()
+                       for other in pending if other != key):
+                break
+        else:
+            raise RuntimeError('cyclic dependency between shared subtrees')
+        pending.remove(key)
         op = op.partial_insert(same_subtrees[key][1].adjoint(same_subtrees[key][0]))
     for key in reversed(key_list_op):
         op = op.partial_insert(same_op[key][1].adjoint(same_op[key][0]))
